@@ -6,8 +6,8 @@ from . import _tm
 ID = "C05"
 LEVEL = "other"
 EXPLANATION = (
-    "Public table: TypeMap.register (U) flushes the per-position cache and adds exactly the new entry; MultiTypeMap.register (B over the number of "
-    "signature entries, everything else symbolic) flushes the dict part AND the remembered errors / candidate sets (this obligation failed on the "
+    "Public table: TypeMap.register (U) flushes the per-position cache and adds exactly the new entry; MultiTypeMap.register (U: a signature with ANY "
+    "number of positional / keyword entries, contracts/register_u_c.py; plus B shapes) flushes the dict part AND the remembered errors / candidate sets (this obligation failed on the "
     "pinned tree - finding F-stale, repaired by a fix: commit), files every entry once under its position/keyword and type; with MultiTypeMap."
     "__missing__ preserving CacheInv (C04) a flushed table behaves as a fresh one over the same registrations. Ovld level (_register/_set/"
     "unregister/_update/compile building a brand-new table) is covered by the heap contracts of C16/C18 and by the native sequence suite here; "
@@ -15,7 +15,7 @@ EXPLANATION = (
 )
 ASSUMPTIONS = ["handlers are registered once per table (MTInv: handler not registered yet)"]
 TRUSTED = ["is_dependent is pure"]
-BOUNDS = {"MultiTypeMap.register": "signatures with <=3 entries", "native sequences": "7 register/unregister scripts x 5 probes"}
+BOUNDS = {"MultiTypeMap.register": "unbounded (mode U); the B-mode shapes with <=3 entries stay as counter-model producers", "rebuild sites": "frames.rebuild: every call site of Ovld.compile in the real AST", "native sequences": "7 register/unregister scripts x 5 probes"}
 
 
 def tasks(tier):
